@@ -63,6 +63,9 @@ func main() {
 		} else if err != nil {
 			res.InfraError("race-pass child failed: %v\n%s", err, tailStr(out.String(), 30))
 		}
+		if res.Extra == nil {
+			res.Extra = map[string]any{}
+		}
 		races := collectRaces(logBase)
 		res.Extra["races_observed"] = float64(len(races))
 		if len(races) > 0 {
